@@ -12,7 +12,9 @@
 (*                rt2 = back_transform(transform(t))                       *)
 (*   ev = "invr"  x = a parameter vector on the 10^-6 grid inside the      *)
 (*                bounds; err = back_transform(transform(x)) - x in 10^-12 *)
-(*   ev = "jac"   out = _jacobian_logit_transform(tt)  (sum of log J)      *)
+(*   ev = "jac"   out = _jacobian_logit_transform(tt(E)) -                 *)
+(*                _jacobian_logit_transform(tt(E2)): only differences of   *)
+(*                log J (sum over the parameters) enter the property       *)
 (*   ev = "mh"    a BSL object whose state holds params[n-1] = t(pE),      *)
 (*                params[n] = t(cE), logposterior = log pq, log cq         *)
 (*                (cz: -inf), logit_transform_bound = the bounds (tb) or   *)
@@ -48,7 +50,8 @@ LatticeOk(Es) == /\ Len(Es) = NP
                                      /\ (PS[i].ty = 0 => PS[i].a < PS[i].b /\ QSmooth(JacQ(PS[i], Es[i])))
 
 JudgeX(e) ==
-  CASE e.ev = "inv" \/ e.ev = "jac" -> IF LatticeOk(e.E) THEN "" ELSE "X:off-lattice"
+  CASE e.ev = "inv" -> IF LatticeOk(e.E) THEN "" ELSE "X:off-lattice"
+    [] e.ev = "jac" -> IF LatticeOk(e.E) /\ LatticeOk(e.E2) THEN "" ELSE "X:off-lattice"
     [] e.ev = "mh" -> IF LatticeOk(e.pE) /\ LatticeOk(e.cE) /\ QIsRat(e.pq) /\ QIsRat(e.cq) /\ e.pq[1] > 0 /\ e.cq[1] > 0
                       THEN "" ELSE "X:off-lattice"
     [] e.ev = "invr" -> IF Len(e.x) = NP /\ \A i \in 1..NP :
@@ -75,7 +78,8 @@ JudgeP(e) ==
     [] e.ev = "invr" ->
          IF Len(e.err) # NP \/ \E i \in 1..NP : ~Near(e.err[i], 0, 1000) THEN "P:inverse" ELSE "ok"
     [] e.ev = "jac" ->
-         IF e.ores # "val" \/ ~Near(e.out, SumLogJ(e.E, NP), SumLogJErr(e.E, NP)) THEN "P:jacobian" ELSE "ok"
+         IF e.ores # "val" \/ ~Near(e.out, SumLogJ(e.E, NP) - SumLogJ(e.E2, NP), SumLogJErr(e.E, NP) + SumLogJErr(e.E2, NP))
+         THEN "P:jacobian" ELSE "ok"
     [] e.ev = "mh" ->
          LET r == StatedRatio(e)
          IN IF e.cz THEN (IF e.ores = "val" /\ e.out = 0 THEN "ok" ELSE "P:mh-ratio")
